@@ -4,8 +4,9 @@ Tie A (correspondence): every ACTION cell and every `max_prior_for_term` entry o
 table the REAL compiler builds is recomputed by the Lean model `Resolve.stateCell` (driver command
 `resolve`) from the dumped items+lookaheads, grammar meta-data and settings, and compared.
 Oracle (python, independent of the model): the documented rule evaluated on the candidate set of
-each cell (taken from a second, "raw" compilation of the grammar stripped of all meta-data in GLR
-mode without shift preference, where nothing is ever resolved) and compared with the real cell.
+each cell (read off the items+lookaheads of the state, never off a cell) and compared with the real
+cell.  Every grammar is also compiled bare (no meta-data, GLR, no shift preference: nothing documented
+applies, every candidate must stay); that compilation supplies the items when the annotated one panics.
 Operator corollary: LR trees of annotated expression grammars vs a precedence-climbing parser."""
 import itertools
 import json
@@ -444,68 +445,69 @@ def prod_infos(c):
 
 
 def cells_of(c):
-    """for every (state, terminal) with at least one candidate: the oracle's view.
-    Candidates come from the RAW table (nothing resolved); shift priority from the items."""
+    """for every (state, terminal) with at least one candidate: the oracle's view.  Candidates are
+    read off the ITEMS of the state (never off any cell): SHIFT iff an item has the terminal right of
+    the dot, ACCEPT for the completed augmented item, REDUCE(p, dot) for every reducing item with the
+    terminal among its lookaheads; shift priority = max priority of the shifting items' productions."""
     info, tassoc = prod_infos(c)
+    src = c.dump if c.dump is not None else c.raw
+    rn = src["rn"]
     out = []
-    for s in c.raw["states"]:
-        shift_prio = {}
-        for (p, dot, _la) in s["items"]:
+    for s in src["states"]:
+        shift_prio, shifts, reds = {}, {}, {}
+        for (p, dot, la) in s["items"]:
             rhs = info[p]["rhs"]
-            if dot < len(rhs) and rhs[dot] < c.raw["nterms"]:
+            if dot < len(rhs) and rhs[dot] < src["nterms"]:
                 t = rhs[dot]
                 shift_prio[t] = max(shift_prio.get(t, 0), info[p]["prio"])
-        for t, acts in sorted(s["acts"].items()):
-            shifts = [a[0] for a in acts if a[0] in "SA"]
-            cands = []
-            for a in acts:
-                if a[0] == "R":
-                    i = info[a[1]]
-                    cands.append({"id": fmt_act(a), "prod": a[1], "prio": i["prio"], "assoc": i["assoc"],
-                                  "empty": i["empty"], "nops": i["nops"], "nopse": i["nopse"]})
-            out.append({"state": s["idx"], "term": t, "shifts": shifts, "cands": cands, "ta": tassoc.get(t, "N"),
-                        "shp": DEFAULT_PRIO if shifts[:1] == ["A"] else shift_prio.get(t),
+                if "S" not in shifts.setdefault(t, []):
+                    shifts[t].append("S")
+            if dot == len(rhs) or (rn is not None and dot >= rn[p]):
+                if src["prods"][p]["lhs"] in (src["aug"], src["augl"]):
+                    if dot == len(rhs):
+                        shifts.setdefault(0, []).append("A")
+                else:
+                    for t in la:
+                        i = info[p]
+                        reds.setdefault(t, []).append(
+                            {"id": f"R{p}.{dot}", "prod": p, "prio": i["prio"], "assoc": i["assoc"],
+                             "empty": i["empty"], "nops": i["nops"], "nopse": i["nopse"]})
+        for t in sorted(set(shifts) | set(reds)):
+            sh = shifts.get(t, [])
+            out.append({"state": s["idx"], "term": t, "shifts": sh, "cands": reds.get(t, []), "ta": tassoc.get(t, "N"),
+                        "shp": DEFAULT_PRIO if sh[:1] == ["A"] else shift_prio.get(t),
                         "items_shift_prio": shift_prio})
     return out
 
 
-def raw_consistent(c):
-    """the raw table's cells are exactly the candidates the items+lookaheads give (shift first)"""
-    rn = c.raw["rn"]
-    for s in c.raw["states"]:
-        want = {}
-        for (p, dot, la) in s["items"]:
-            rhs = c.raw["prods"][p]["rhs"]
-            if dot < len(rhs) and rhs[dot] < c.raw["nterms"]:
-                want.setdefault(rhs[dot], set()).add("S")
-            red = dot == len(rhs) or (rn is not None and dot >= rn[p])
-            if red:
-                if c.raw["prods"][p]["lhs"] in (c.raw["aug"], c.raw["augl"]):
-                    if dot == len(rhs):
-                        want.setdefault(0, set()).add("A")
-                else:
-                    for t in la:
-                        want.setdefault(t, set()).add(f"R{p}.{dot}")
-        got = {t: {fmt_act(a) for a in acts} for t, acts in s["acts"].items()}
-        if got != want:
-            return f"state {s['idx']}: raw cells {got} / items give {want}"
-    return None
+def items_differ(c):
+    """items+lookaheads must not depend on meta-data or resolution settings (same table type)"""
+    if c.dump is None or c.raw is None:
+        return None
+    a = [s["items"] for s in c.dump["states"]]
+    b = [s["items"] for s in c.raw["states"]]
+    return None if a == b else "items/lookaheads of the annotated grammar differ from those of the bare grammar"
 
 
 def classify(c, cell, real):
-    """finding class of a cell on which the real compiler deviates from the documented rule"""
+    """finding class of a cell on which the real compiler deviates from the documented rule (None: no
+    known class).  Each predicate is the hypothesis the corresponding *_unrepaired theorem needs,
+    narrowed by the shape of the deviation."""
     st = c.st()
     cands, shp, ta = cell["cands"], cell["shp"], cell["ta"]
-    has_shift = bool(cell["shifts"])
-    if has_shift and ta != "N" and any(k["prio"] == shp for k in cands):
-        # exactly the hypothesis C05_sr_matches_doc_today needs: terminal associativity is consulted
+    shift = cell["shifts"][0] if cell["shifts"] else None
+    # F1: the terminal's own associativity is consulted (equal priority) and was applied inverted
+    if shift and ta != "N" and any(k["prio"] == shp for k in cands):
         swapped = {"L": "R", "R": "L"}[ta]
-        if real is None or sorted(real) == sorted(doc_cell(st, cell["shifts"][0], swapped, shp, cands)) \
-                or len(cands) > 1:
+        if sorted(real) == sorted(doc_cell(st, shift, swapped, shp, cands)) or \
+                (len(cands) > 1 and pairwise_justified(st, shift, swapped, shp, cands, real)):
             return KEY_F1
+    # N1: LR, EMPTY reductions of equal priority: one that the rule keeps is missing
     if not st["glr"]:
-        top = [k for k in cands if k["empty"]]
-        if len(top) >= 2 and len({k["prio"] for k in top}) < len(top):
+        empt = [k for k in cands if k["empty"]]
+        want = doc_cell(st, shift, ta, shp, cands)
+        if len(empt) >= 2 and len({k["prio"] for k in empt}) < len(empt) and \
+                any(k["id"] in want and k["id"] not in real for k in empt):
             return KEY_N1
     return None
 
@@ -516,9 +518,9 @@ def oracle(rep, c):
     st = c.st()
     if c.raw is None:
         return bad
-    rc = raw_consistent(c)
+    rc = items_differ(c)
     if rc:
-        bad.append(("raw table is not the unresolved candidate set: " + rc, {}, "machinery"))
+        bad.append((rc, {}, "machinery"))
         return bad
     cells = cells_of(c)
     if c.dump is None:
@@ -527,7 +529,7 @@ def oracle(rep, c):
             rep.count("compiler_panic:" + panic_class(msg))
             three = any(cl["shifts"] and len(cl["cands"]) >= 2 for cl in cells)
             key = KEY_F9 if panic_class(msg) == "assert-len1" and three else None
-            bad.append((f"resolving aborts the compiler: {msg}", {"panic": msg}, key))
+            bad.append(("resolving aborts the compiler: " + " ".join(msg.split()), {"panic": msg}, key))
         else:
             rep.count("grammar_rejected:" + " ".join(c.ans.split(" ")[1:3]))
         return bad
@@ -792,6 +794,17 @@ def random_cases(rng, tier):
     return cases
 
 
+def raw_cases(cases):
+    """the bare grammars (no meta-data) in GLR mode without shift preference are cases of their own:
+    nothing documented applies, every candidate must stay"""
+    seen, out = set(), []
+    for c in cases:
+        if c.raw_key() not in seen:
+            seen.add(c.raw_key())
+            out.append(RCase(Gram(c.g.prods, c.g.terms), "GLR", c.tt, False, False, "raw"))
+    return out
+
+
 def known_keys():
     if os.environ.get("C05_ASSUME_KNOWN"):        # development: as if the proposed entries were listed
         return {KEY_F1, KEY_F9, KEY_N1}
@@ -881,6 +894,7 @@ def run(rep, tier, seed):
             rep.violation({"broken": "harness build", "log": log[-3000:]}, no_input=True)
             return
     cases = conf_cases(tier) + random_cases(rng, tier)
+    cases += raw_cases(cases)
     compile_all(cases)
     rep.cov["rule"] = (
         "conf-sr: one tiny grammar per (priority order <,=,>) x production assoc x terminal assoc x EMPTY/non-empty x nops x "
@@ -896,9 +910,8 @@ def run(rep, tier, seed):
     for payload, _ in sorted(ofails, key=lambda f: (len(f[0]["grammar"]), len(f[0].get("input", ""))))[:max(0, 3 - len(rep.violations))]:
         rep.violation(dict(payload, kind="impl!=oracle", tag="ops"))
     rep.assumptions += [
-        "the candidate set of a cell is read off a second compilation of the grammar without meta-data (GLR, no shift "
-        "preference), checked on every case to equal what items+lookaheads give; production/terminal meta-data as the "
-        "builder computed them (rule-level inheritance is C09)",
+        "the candidate set of a cell is what the dumped items+lookaheads of its state give (their correctness is C04); "
+        "production/terminal meta-data as the builder computed them (rule-level inheritance is C09)",
         "REDUCE/REDUCE in LR mode: 'non-empty preferred to EMPTY on equal priority' is taken as part of the rule although "
         "only a code comment documents it (table/mod.rs:879)",
         "cells with >= 3 candidates: the two-phase reading of the pairwise documented rule; a cell that deviates from it "
